@@ -29,7 +29,7 @@ RULE = ("cases: fitter configurations with <= k deviations from the default; exe
 ASSUMPTIONS = ["finite value alphabets (DESIGN.md section 0)", "theta*dmin not below the smallest aperture (precondition)",
                "sources have >= 1 fitted point with non-zero extinction coefficient"]
 REQUIRED_CLASSES = ['n_distances==1', 'aperture-beyond-table', 'best-at-first', 'best-interior', 'best-at-last', 'av-clipped-some-distances',
-                    'range-multiple-of-step', 'range-exact-multiple-exact-arithmetic', 'float32-path', 'limit-violated', 'non-monotone-growth', 'mixed-theta', 'request-on-smallest-aperture', 'distance-range-in-other-unit', 'apertures-in-other-angular-unit', 'aperture-tables-differ-between-bands', 'aperture-table-stored-decreasing']
+                    'range-multiple-of-step', 'range-exact-multiple-exact-arithmetic', 'float32-path', 'limit-violated', 'non-monotone-growth', 'mixed-theta', 'request-on-smallest-aperture', 'distance-range-in-other-unit', 'apertures-in-other-angular-unit', 'aperture-tables-differ-between-bands', 'aperture-table-stored-decreasing', 'source-reflagged-between-fits']
 TIMEOUT = {'quick': 300, 'thorough': 1800}
 
 AXES = {
@@ -191,6 +191,16 @@ def run_case(ctx, case, rec, d):
             rec.cls('av-clipped-some-distances', int(np.sum(np.any(clipped, axis=1) & ~np.all(clipped, axis=1))))
             ls = fc.limit_stats(list(fv), ref['lf'], ref['le'], ref['pred'][np.arange(len(names)), jb, :])
             rec.cls('limit-violated', ls['lim_violated'])
+            # the same Source object re-flagged between two fits (one band switched off): the second fit is judged like any other
+            if ps == 0 and sum(1 for v in fv if v in (1, 4)) >= 2 and fv[0] == 1 and any(v in (1, 4) and k[j] != 0 for j, v in enumerate(fv) if j != 0):
+                f2 = (0,) + tuple(fv[1:])
+                src.valid = np.array(f2)
+                info2 = fitter.fit(src)
+                rec.trans()
+                rec.cls('source-reflagged-between-fits')
+                probs2, _ = fc.judge_3d(info2, (list(f2), fl, er), names, logm3, logd, k, avlo, avhi, f32=f32)
+                for kind, detail in probs2:
+                    rec.violation('fit3d|after-reflag|%s' % kind, {'flags': list(fv), 'reflagged': list(f2), 'pset': ps}, {'problem': detail})
             if first:
                 rec.sample({'config': {k_: v for k_, v in case.items()}, 'apertures_au': ap, 'distance_range_kpc': [dmin, dmax], 'n_grid': len(grid),
                             'flags': list(fv), 'flux': fl, 'error': er, 'reported_scale': st['sc'], 'reported_av': st['av'], 'reported_chi2': st['chi2']})
